@@ -23,6 +23,9 @@ UNDECIDABLE = re.compile(r"unwinding assertion|is not currently supported by Kan
 CELL_RE = re.compile(r'vpv_cell!\(\s*((?:#\[[^\]]*\]\s*)*)(\w+)\s*,\s*"([^"]+)"\s*,\s*\(([^)]*)\)', re.S)
 
 
+NATIVE_RE = re.compile(r'vpv_native!\(\s*(\w+)\s*,\s*"([^"]+)"', re.S)
+
+
 def parse_cells(contract_path):
     """-> [dict(mod, obl, args=[(name,type)], attrs)] in file order."""
     txt = open(contract_path).read()
@@ -32,7 +35,10 @@ def parse_cells(contract_path):
         for a in [x.strip() for x in m.group(4).split(",") if x.strip()]:
             n, t = a.split(":", 1)
             args.append((n.strip(), t.strip()))
-        cells.append(dict(mod=m.group(2), obl=m.group(3), args=args, attrs=m.group(1).strip()))
+        cells.append(dict(mod=m.group(2), obl=m.group(3), args=args, attrs=m.group(1).strip(), native=False, pos=m.start()))
+    for m in NATIVE_RE.finditer(txt):
+        cells.append(dict(mod=m.group(1), obl=m.group(2), args=[], attrs="", native=True, pos=m.start()))
+    cells.sort(key=lambda c: c["pos"])
     return cells
 
 
@@ -204,15 +210,19 @@ def run_unit(unit, tier="quick", dev=False, only=None):
             for pat, gg in grades.items():
                 if re.search(pat, c["mod"]):
                     g = gg
+            if c.get("native"):
+                g = unit.get("native_grade", "bounded(native exhaustive enumeration)")
             o = Obligation(c["obl"], fn=unit.get("fn_of", lambda c: "")(c) or unit.get("functions_short", ""),
-                           tool="kani", grade=g, backend="CBMC 6.11 (cadical) via Kani 0.68", where=c["file"])
+                           tool="native enumeration" if c.get("native") else "kani", grade=g,
+                           backend="native execution of the real crate (cfg vpv_replay test build)" if c.get("native") else "CBMC 6.11 (cadical) via Kani 0.68", where=c["file"])
             o.cell = c
             obls[c["mod"]] = o
         crate_dir = os.path.join(scratch, "crates", unit["crate"])
         filters = []
         all_cells = sum([parse_cells(os.path.join(VERIF, a[2])) for a in unit["appends"]], [])
-        if len(cells) != len(all_cells):
-            for c in cells:
+        kcells = [c for c in cells if not c.get("native")]
+        if len(cells) != len(all_cells) or len(kcells) != len(cells):
+            for c in kcells:
                 filters += ["--harness", f"{c['module']}::{c['mod']}::h"]
         else:
             for (rel, mod, contract) in unit["appends"]:
@@ -223,7 +233,10 @@ def run_unit(unit, tier="quick", dev=False, only=None):
               unit.get("kani_args", []) + filters + ["-j", jobs, "--output-format", "terse"]
         meta["kani_cmd"] = "cd <scratch>/crates/%s && %s" % (unit["crate"], " ".join(cmd))
         tk = time.time()
-        rc, out = sh(cmd, cwd=crate_dir, timeout=unit.get("timeout", 1800))
+        if kcells:
+            rc, out = sh(cmd, cwd=crate_dir, timeout=unit.get("timeout", 1800))
+        else:
+            rc, out = 0, ""
         meta["kani_wall_s"] = round(time.time() - tk, 1)
         meta["kani_rc"] = rc
         if dev:
@@ -243,6 +256,8 @@ def run_unit(unit, tier="quick", dev=False, only=None):
                 by_mod[mm.group(1)] = (h, r)
         refuted = []
         for mod, o in obls.items():
+            if o.cell.get("native"):
+                continue
             if mod not in by_mod:
                 o.status, o.detail = UNDECIDED, "harness was not run by Kani (filter/name mismatch)"
                 continue
@@ -313,6 +328,25 @@ def run_unit(unit, tier="quick", dev=False, only=None):
             for o in new:
                 o.violation_suffix = " no-failing-input-found"
                 o.replay = write_replay(prop, o.finding_keys[0], dict(tool="kani", harness=o.harness, failed_checks=o.detail, kani_cmd=meta["kani_cmd"]))
+        # native enumeration cells (bounded stand-ins): run the cell body natively on the scratch copy
+        for mod, o in obls.items():
+            if not o.cell.get("native"):
+                continue
+            tn = time.time()
+            nr = native_replay(scratch, unit, o.cell["file"], o.cell["module"], o.cell, [])
+            o.solver_s = round(time.time() - tn, 2)
+            if nr["result"].startswith("holds"):
+                o.status = DISCHARGED
+            elif nr["result"].startswith("violated"):
+                o.status = REFUTED
+                o.finding_keys = [o.name]
+                o.detail = (nr["result"] + " | first failing inputs: " + " || ".join(nr["inputs"][:3]))[:1500]
+                o.replay_reproduced = True
+                if any(k not in known for k in o.finding_keys):
+                    o.replay = write_replay(prop, o.finding_keys[0], dict(tool="native enumeration (bounded stand-in)", cell=o.cell["mod"],
+                                            failing_inputs=nr["inputs"][:20], native_replay=nr, appended=meta["appended"]))
+            else:
+                o.status, o.detail = UNDECIDED, "native enumeration did not run: " + nr["result"] + " " + nr.get("tail", "")[-600:]
         meta["wall_s"] = time.time() - t0
         return list(obls.values()), meta
     finally:
